@@ -24,4 +24,6 @@ for i in sorted(d for d in os.listdir(f"{ROOT}/seeded") if os.path.isdir(f"{ROOT
             by += f"; not by {', '.join(missed_first)}"
     else:
         by = "**MISSED** by " + ", ".join(x["check"] for x in r["runs"])
+    if m.get("superseded"):
+        by += " (superseded at HEAD, see meta.json)"
     print(f"| `{i}` | {short(m.get('what_changed') or '', 150)} | {short(m.get('needs_to_manifest') or '', 120)} | {by} | {notes.get(i, '')} |")
